@@ -11,7 +11,7 @@ import numpy as np
 from sim import vthreads as V
 from sim.core import Rejected, Violation
 
-from .c19_meta import KERNELS
+from .c19_meta import EXTRA, KERNELS
 
 ID = "C19"
 SHRINK_LISTS = (("schedule", "passes"),)
@@ -23,7 +23,7 @@ def warm() -> None:
 
     import sigpyproc.core.kernels as K
 
-    for k in KERNELS:
+    for k in KERNELS + EXTRA:
         for dt in ("u1", "f4"):
             sc = {"mode": "compiled", "kernel": k, "shape": gen_shape(k, None, small=True), "dseed": 1, "dtype": dt,
                   "threads": [1], "chunksize": 0, "repeats": 1}
@@ -37,6 +37,11 @@ def warm() -> None:
 
 # ------------------------------------------------------------------ shapes and arguments
 def gen_shape(k, rng, small=False):
+    if k in EXTRA:
+        r = rng.random() if rng is not None else 0.5
+        if k == "fold":
+            return {"nchans": 1 + int(r * 4), "nsamps": 8 + int(r * 40), "nbins": 1 + int(r * 5), "nints": 1 + int(r * 3), "maxdelay": int(r * 3)}
+        return {"n": 1 + int(r * 40)}
     if small or rng is None:
         nch, ns = 4, 6
         r01 = 0.5
@@ -64,6 +69,10 @@ def gen_shape(k, rng, small=False):
 
 
 def big_shape(k, rng):
+    if k == "fold":
+        return {"nchans": rng.choice([4, 16]), "nsamps": rng.choice([500, 3000]), "nbins": rng.choice([4, 16]), "nints": rng.choice([1, 4]), "maxdelay": rng.randint(0, 20)}
+    if k in EXTRA:
+        return {"n": rng.choice([511, 4096, 20000])}
     nch, ns = rng.choice([16, 32, 64]), rng.choice([64, 257, 1024, 4096])
     sh = {"nchans": nch, "nsamps": ns}
     if k in ("dedisperse", "subband"):
@@ -86,6 +95,25 @@ def make_args(sc):
     k, sh = sc["kernel"], sc["shape"]
     r = np.random.default_rng(int(sc["dseed"]))
     dt = np.uint8 if sc.get("dtype", "u1") == "u1" else np.float32
+    if k.startswith("unpack") or k.startswith("pack"):
+        nb = int(k[6]) if k.startswith("unpack") else int(k[4])
+        per = 8 // nb
+        n = max(1, sh["n"])
+        if k.startswith("unpack"):
+            a = r.integers(0, 256, size=n).astype(np.uint8)
+            return [a, np.zeros(n * per, np.uint8)], [1], [None]
+        a = r.integers(0, 1 << nb, size=n * per).astype(np.uint8)
+        return [a, np.zeros(n, np.uint8)], [1], [None]
+    if k == "fold":
+        nch, ns, nbins, nints = sh["nchans"], sh["nsamps"], sh["nbins"], sh["nints"]
+        md = min(sh.get("maxdelay", 0), ns - 1)
+        if min(nch, ns, nbins, nints) < 1:
+            raise Rejected("shape")
+        x = r.integers(0, 16, size=ns * nch).astype(dt)
+        d = r.integers(0, md + 1, size=nch).astype(np.int32)
+        cube = nbins * nints * 1
+        tsamp, period = float(np.float32(0.001)), float(np.float32(0.0073))
+        return [x, np.zeros(cube, np.float32), np.zeros(cube, np.int32), d, md, tsamp, period, 0.0, ns, ns, nch, nbins, nints, 1, 0], [1, 2], [None, None]
     if k.startswith("downsample_1d"):
         f, n = sh["f"], sh["f"] * sh["m1"]
         if f < 1 or n < 1:
@@ -160,8 +188,9 @@ def make_args(sc):
 
 
 def generate(rng, tier) -> dict:
-    k = rng.choice(KERNELS)
-    compiled = rng.random() < 0.3
+    extra = rng.random() < 0.1
+    k = rng.choice(EXTRA) if extra else rng.choice(KERNELS)
+    compiled = rng.random() < (0.6 if extra else 0.3)
     sc = {"kernel": k, "dseed": rng.randrange(1 << 30), "dtype": rng.choice(["u1", "f4"])}
     if compiled:
         sc["mode"] = "compiled"
@@ -288,6 +317,11 @@ def execute(sc, ctx) -> None:
         a_ref = [a.copy() if isinstance(a, np.ndarray) else a for a in args0]
         r_ref, sim1, _ = V.run_kernel(disp, a_ref, {"threads": 1})
         if sim1.npar < 1:
+            if k in EXTRA:
+                ctx.observations["extra-kernel-is-serial"] += 1
+                ctx.probe("extra-kernel-run")
+                ctx.log("sim", k, "serial")
+                return
             raise mk("kernel-has-no-prange", "nothing to schedule")
         a_sim = [a.copy() if isinstance(a, np.ndarray) else a for a in args0]
         try:
@@ -301,7 +335,8 @@ def execute(sc, ctx) -> None:
             ctx.probe(">=2-threads-alive-at-a-switch")
         if sim.work_used and sum(len(w) for w in sim.work_used) > T:
             ctx.probe("chunks>threads")
-        ctx.probe(f"sim:{k}")
+        if k not in EXTRA:
+            ctx.probe(f"sim:{k}")
         if T > 1 and niter >= 2:
             ctx.probe("nontrivial")
         sched_digest = hashlib.sha1(repr((sim.work_used, sim.trace)).encode()).hexdigest()[:12]
@@ -319,7 +354,9 @@ def execute(sc, ctx) -> None:
         for i, (x, y) in enumerate(zip(o_ref, o_sim)):
             if not same(x, y):
                 raise mk("schedule-dependent-result", f"output {i} differs from the single-thread run of the same source")
-        if is_mom:
+        if k in EXTRA:
+            ctx.probe("extra-kernel-run")
+        elif is_mom:
             check_moments_vs_definition(o_sim[0], args0[0], len(o_sim[0]), k.endswith("basic"), mk)
         else:
             for i, (y, ref) in enumerate(zip(o_sim, refs)):
@@ -331,7 +368,7 @@ def execute(sc, ctx) -> None:
     import numba
 
     layer = os.environ.get("NUMBA_THREADING_LAYER", "default")
-    ctx.probe(f"compiled:{k}")
+    ctx.probe(f"compiled:{k}" if k not in EXTRA else "extra-kernel-run")
     ctx.probe(f"compiled:layer:{layer}")
     a_py = [a.copy() if isinstance(a, np.ndarray) else a for a in args0]
     r_py = disp.py_func(*a_py)
@@ -367,7 +404,9 @@ def execute(sc, ctx) -> None:
                   ctx.probe("nontrivial")
     finally:
         numba.set_num_threads(1)
-    if is_mom:
+    if k == "fold":
+        pass  # reference is the 1-thread compiled run (the interpreted definition evaluates the phase in other precisions)
+    elif is_mom:
         bad = moments_close(first[0], o_py[0])
         if bad:
             raise mk("differs-from-python-definition", f"field {bad}")
@@ -381,6 +420,8 @@ def execute(sc, ctx) -> None:
 
 def _niter(sc) -> int:
     k, sh = sc["kernel"], sc["shape"]
+    if k in EXTRA:
+        return sh.get("n", sh.get("nsamps", 2))
     if k.startswith("downsample"):
         return sh["m1"]
     if k in ("extract_bpass", "mask_channels") or k.startswith("compute_online"):
